@@ -131,6 +131,9 @@ func c17Play(ctx *rt.Ctx, c c17Case, all bool) (viol string, sigOverride string,
 		files[f] = filepath.Join(ctx.Scratch, fmt.Sprintf("c17-%d-f%d.updog", c17Seq, f))
 		os.WriteFile(files[f], c17Masters[f], 0o644)
 	}
+	// file 1 is always addressed through a non-canonical spelling of its path (what is registered under one spelling
+	// must be released under the same one)
+	files[1] = ctx.Scratch + "/./" + filepath.Base(files[1])
 	handles := map[int]*c17Handle{}
 	flk.Sequential(true)
 	defer flk.Sequential(false) // registered first = runs last: the cleanup below must still detect blocking calls
@@ -382,66 +385,191 @@ func c17Alphabet() []c17Op {
 }
 
 type c17Args struct {
-	Pool  int `json:"pool"`
-	Depth int `json:"depth"`
+	Pool     int       `json:"pool"`
+	Depth    int       `json:"depth"`
+	Unmerged bool      `json:"unmerged"`
+	Level    bool      `json:"level"` // expand the given histories by one operation each (one chunk of a BFS level)
+	Hists    [][]c17Op `json:"hists,omitempty"`
 }
 
-func c17SeqWorker(ctx *rt.Ctx, job *rt.Job, a c17Args) []*rt.Violation {
-	alpha := c17Alphabet()
-	seen := map[string]bool{}
-	frontier := []c17Case{{Pool: a.Pool}}
-	_, _, k0 := c17Play(ctx, frontier[0], false)
-	seen[k0] = true
-	ctx.Cov.Add("states", 1)
+// c17LevelOut is one transition of a BFS level as a worker reports it to the master, which owns the seen set.
+type c17LevelOut struct {
+	Ops      []c17Op `json:"ops"`
+	Key      string  `json:"key"`
+	Conflict bool    `json:"conflict,omitempty"`
+}
+
+// c17Unmerged: every history to depth 5 over a reduced alphabet (3 DSNs, <=2 handles, query/close), WITHOUT merging
+// states: whatever hidden state an implementation keeps outside the driver object (package-level registries ...) cannot
+// hide behind an equal state key here.
+func c17Unmerged(ctx *rt.Ctx, pool int) []*rt.Violation {
+	var alpha []c17Op
+	for h := 0; h < 2; h++ {
+		for _, d := range []int{0, 1, 2} {
+			alpha = append(alpha, c17Op{Op: "open", DSN: d, H: h})
+		}
+		alpha = append(alpha, c17Op{Op: "query", H: h}, c17Op{Op: "close", H: h})
+	}
 	var vs []*rt.Violation
 	conflictSeen := false
-	for depth := 1; depth <= a.Depth && len(frontier) > 0; depth++ {
-		var next []c17Case
-		for _, h := range frontier {
-			for _, op := range alpha {
-				if !c17Enabled(h, op) {
-					continue
-				}
-				c := c17Case{Pool: a.Pool, Ops: append(append([]c17Op{}, h.Ops...), op)}
-				viol, sig, key := c17Play(ctx, c, false)
-				ctx.Cov.Add("transitions", 1)
-				ctx.Cov.Add("traces_validated_against_impl", 1)
-				if viol != "" {
-					if sig == c17ConflictSig {
-						if !conflictSeen {
-							conflictSeen = true
-							v := rt.NewViolation("C17", "seq", sig, c, "%s", viol)
-							vs = append(vs, v)
-						}
-						continue // residual class: do not expand beyond it
+	var rec func(c c17Case) bool
+	rec = func(c c17Case) bool {
+		if len(c.Ops) > 0 {
+			viol, sig, _ := c17Play(ctx, c, false)
+			ctx.Cov.Add("unmerged_histories", 1)
+			ctx.Cov.Add("traces_validated_against_impl", 1)
+			if viol != "" {
+				if sig == c17ConflictSig {
+					if !conflictSeen {
+						conflictSeen = true
+						vs = append(vs, rt.NewViolation("C17", "seq", sig, c, "%s", viol))
 					}
-					vs = append(vs, rt.NewViolation("C17", "seq", c.sig(), c, "%s", viol))
-					return vs
+					return true // do not extend beyond the recorded residual
 				}
-				if key == "" {
-					key = c.sig() // cannot bind the driver's private state: no merging
-				}
-				if !seen[key] {
-					seen[key] = true
-					ctx.Cov.Add("states", 1)
-					next = append(next, c)
-					if depth == 4 {
-						ctx.Cov.Sample(2, map[string]any{"history": c.sig(), "state": key})
-					}
-				}
+				vs = append(vs, rt.NewViolation("C17", "seq", c.sig(), c, "%s", viol))
+				return false
 			}
-			if ctx.Expired() {
-				ctx.Cov.Cap(fmt.Sprintf("pool=%d: deadline at depth %d", a.Pool, depth))
+		}
+		if len(c.Ops) == 5 {
+			return true
+		}
+		for _, op := range alpha {
+			if !c17Enabled(c, op) {
+				continue
+			}
+			if !rec(c17Case{Pool: pool, Ops: append(append([]c17Op{}, c.Ops...), op)}) {
+				return false
+			}
+		}
+		return !ctx.Expired()
+	}
+	rec(c17Case{Pool: pool})
+	return vs
+}
+
+// c17LevelWorker expands every given history by every enabled operation on the real driver and reports (history, key).
+func c17LevelWorker(ctx *rt.Ctx, a c17Args) []*rt.Violation {
+	alpha := c17Alphabet()
+	var outs []c17LevelOut
+	var vs []*rt.Violation
+	defer func() { ctx.Cov.Note("level_out", outs) }()
+	for _, h := range a.Hists {
+		for _, op := range alpha {
+			hc := c17Case{Pool: a.Pool, Ops: h}
+			if !c17Enabled(hc, op) {
+				continue
+			}
+			c := c17Case{Pool: a.Pool, Ops: append(append([]c17Op{}, h...), op)}
+			viol, sig, key := c17Play(ctx, c, false)
+			ctx.Cov.Add("transitions", 1)
+			ctx.Cov.Add("traces_validated_against_impl", 1)
+			if viol != "" {
+				if sig == c17ConflictSig {
+					outs = append(outs, c17LevelOut{Ops: c.Ops, Conflict: true})
+					vs = append(vs, rt.NewViolation("C17", "seq", sig, c, "%s", viol))
+					continue // residual class: do not expand beyond it
+				}
+				vs = append(vs, rt.NewViolation("C17", "seq", c.sig(), c, "%s", viol))
 				return vs
 			}
+			if key == "" {
+				key = c.sig() // cannot bind the driver's private state: no merging
+			}
+			outs = append(outs, c17LevelOut{Ops: c.Ops, Key: key})
+		}
+		if ctx.Expired() {
+			ctx.Cov.Cap(fmt.Sprintf("pool=%d: deadline at depth %d", a.Pool, len(h)+1))
+			return vs
+		}
+	}
+	return vs
+}
+
+// c17SeqBFS is the master of the level-synchronous search: it owns the seen set, hands each level's frontier to worker
+// processes in chunks, and merges what they report in a fixed order (so the search is the same on every run).
+func c17SeqBFS(ctx *rt.Ctx, pool, maxDepth int, k0 string) []*rt.Violation {
+	seen := map[string]bool{k0: true}
+	ctx.Cov.Add("states", 1)
+	frontier := [][]c17Op{{}}
+	var vs []*rt.Violation
+	conflictSeen := false
+	for depth := 1; depth <= maxDepth && len(frontier) > 0; depth++ {
+		nchunks := (len(frontier) + 39) / 40
+		if nchunks > 8 {
+			nchunks = 8
+		}
+		var jobs []rt.Job
+		for ch := 0; ch < nchunks; ch++ {
+			var hs [][]c17Op
+			for i := ch; i < len(frontier); i += nchunks {
+				hs = append(hs, frontier[i])
+			}
+			b, _ := json.Marshal(c17Args{Pool: pool, Level: true, Hists: hs})
+			jobs = append(jobs, rt.Job{Name: "seq", NShards: 1, Args: b})
+		}
+		outs := rt.RunJobs(ctx, jobs, rt.SpawnOpt{})
+		var next [][]c17Op
+		stop := false
+		for _, o := range outs {
+			if o.Res != nil && o.Res.Cov != nil {
+				if raw, ok := o.Res.Cov.Notes["level_out"]; ok {
+					b, _ := json.Marshal(raw)
+					var los []c17LevelOut
+					if err := json.Unmarshal(b, &los); err != nil {
+						rt.Harnessf("level_out: %v", err)
+					}
+					for _, lo := range los {
+						if lo.Conflict || seen[lo.Key] {
+							continue
+						}
+						seen[lo.Key] = true
+						ctx.Cov.Add("states", 1)
+						next = append(next, lo.Ops)
+						if depth == 4 {
+							ctx.Cov.Sample(2, map[string]any{"history": c17Case{Pool: pool, Ops: lo.Ops}.sig(), "state": lo.Key})
+						}
+					}
+					delete(o.Res.Cov.Notes, "level_out")
+				}
+				for _, inc := range o.Res.Cov.Incomplete {
+					if strings.Contains(inc, "deadline") {
+						stop = true
+					}
+				}
+			}
+		}
+		for _, v := range rt.Collect(ctx, outs, nil) {
+			if v.Sig == c17ConflictSig {
+				if conflictSeen {
+					continue
+				}
+				conflictSeen = true
+			} else {
+				stop = true
+			}
+			vs = append(vs, v)
+		}
+		if stop {
+			return vs
 		}
 		frontier = next
 		ctx.Cov.Max("max_depth", int64(depth))
 	}
 	if len(frontier) > 0 {
-		ctx.Cov.Cap(fmt.Sprintf("pool=%d: depth bound %d reached with %d states on the frontier", a.Pool, a.Depth, len(frontier)))
+		ctx.Cov.Cap(fmt.Sprintf("pool=%d: depth bound %d reached with %d states on the frontier", pool, maxDepth, len(frontier)))
 	}
 	return vs
+}
+
+func c17SeqWorker(ctx *rt.Ctx, job *rt.Job, a c17Args) []*rt.Violation {
+	if a.Unmerged {
+		return c17Unmerged(ctx, a.Pool)
+	}
+	if a.Level {
+		return c17LevelWorker(ctx, a)
+	}
+	rt.Harnessf("seq job without a mode")
+	return nil
 }
 
 // ---- concurrent first use at the driver.Driver seam -------------------------------------------
@@ -578,7 +706,7 @@ func c17Run(ctx *rt.Ctx) []*rt.Violation {
 	}
 	var seq []rt.Job
 	for _, pool := range []int{0, 1} {
-		b, _ := json.Marshal(c17Args{Pool: pool, Depth: depth})
+		b, _ := json.Marshal(c17Args{Pool: pool, Unmerged: true})
 		seq = append(seq, rt.Job{Name: "seq", NShards: 1, Args: b})
 	}
 	type cc struct {
@@ -597,8 +725,29 @@ func c17Run(ctx *rt.Ctx) []*rt.Violation {
 	}
 	done := make(chan []rt.JobOutcome)
 	go func() { done <- rt.RunJobs(ctx, conc, rt.SpawnOpt{Race: true}) }()
+	type bfsOut struct {
+		vs  []*rt.Violation
+		pan any
+	}
+	bfs := make(chan bfsOut, 2)
+	for _, pool := range []int{0, 1} {
+		pool := pool
+		_, _, k0 := c17Play(ctx, c17Case{Pool: pool}, false)
+		go func() {
+			var o bfsOut
+			defer func() { o.pan = recover(); bfs <- o }()
+			o.vs = c17SeqBFS(ctx, pool, depth, k0)
+		}()
+	}
 	outs := rt.RunJobs(ctx, seq, rt.SpawnOpt{})
 	vs := rt.Collect(ctx, outs, nil)
+	for i := 0; i < 2; i++ {
+		o := <-bfs
+		if o.pan != nil {
+			panic(o.pan)
+		}
+		vs = append(vs, o.vs...)
+	}
 	vs = append(vs, rt.Collect(ctx, <-done, nil)...)
 	ctx.Cov.Note("sequential", fmt.Sprintf("BFS over histories of {Open(dsn) for 2 files x 2 option strings, Query, Prepare+Stmt.Query, two overlapping Queries, Close} through database/sql with the registered driver, <=3 live handles, pool size in {unlimited,1}, depth %d, states merged on (handle pool stats, driver connection-cache dump)", depth))
 	ctx.Cov.Note("concurrent", fmt.Sprintf("%v: threads each doing driver.Open -> QueryContext -> Close on one file (what database/sql does on concurrent first use of a fresh handle), preemption-bounded DFS, file-lock waits are scheduling points, race detector live", concs))
